@@ -180,6 +180,9 @@ func verifTemplates() *template.Template { return getTemplates() }
 
 func verifModel_proxy_verifTemplates() *template.Template { return nil }
 
+// getTemplates (html/template parsing) is replaced by nil under the executor.
+func verifModel_proxy_getTemplates() *template.Template { return nil }
+
 func verifRegex(i int) *regexp.Regexp {
 	switch i {
 	case 0:
